@@ -113,6 +113,54 @@ CLAIMED = {
                  "declaration helpers split strings identically; that builders accumulate additively.",
         "note": _TB,
     },
+    "C06": {
+        "technique": "static analysis: argument binding of the integrator call in _getSolution; abstract execution of the "
+                     "name->index helpers (14 name orders) and of _setParam/_setParamStateInput/_unrollState over enumerated "
+                     "target subsets; constructor -> BaseLoss -> kernel wiring by parameter binding",
+        "level": "Decides row/observation matching (integration exactly at the copied observation times, no origin row), "
+                 "column selection in the supplied state order, that theta[i] goes to target_param[i] and state values to "
+                 "their named states in all cases, and that each loss class builds its own kernel from (y, weights, spread). "
+                 "Does not decide the numerical value of the loss or zero cost at the generating parameters.",
+        "note": _TB,
+    },
+    "C15": {
+        "technique": "static analysis: loop-variable dependence of the stored column and histogram-argument agreement "
+                     "(R-LOOPDEP); abstract execution of the last-event look-up over hit/between/before/after targets and of "
+                     "solve_stochast's time-argument handling over list/tuple/array/scalar x exact/tau",
+        "level": "Decides that per-interval counts are per transition (column i from column i of the jump record, event "
+                 "times without the initial time, target grid as bins), that the look-up returns the state at the last event "
+                 "time <= each target in order, and that gridded runs route states/counts/grid through these routines with "
+                 "the right argument roles. Numerical identity rows = V x counts follows with C04 and is not re-decided.",
+        "note": _TB + "; numpy histogram/searchsorted/where semantics as documented",
+    },
+    "C16": {
+        "technique": "static analysis: interprocedural reachability with constant propagation (seed=None, parallel=False) "
+                     "and branch pruning against a catalogue of generator constructors, with a positive control on the "
+                     "parallel branch; in-place mutation scan; same-object data flow between mean and returned list",
+        "level": "Decides that serial runs can only draw through numpy's global generator (so a global seed fixes the "
+                 "stream), that each run starts from a copy of the initial state and no stepper mutates its input, and "
+                 "that the reported mean is over the returned list along the stacking axis. 'Different seeds differ' is "
+                 "a statement about numpy and is not decided.",
+        "note": _TB,
+    },
+    "C17": {
+        "technique": "static analysis: CFG dominance of the accepting exit by the prior-support and strict tolerance tests, "
+                     "producer/consumer tuple-slot agreement, abstract execution of the tolerance schedule, sibling agreement "
+                     "of parameter-order derivation",
+        "level": "Decides that a particle can only be stored after density-product>0 and cost<tolerance with cost evaluated "
+                 "at (a copy of) that particle in model order; that weight/particle/distance land in w[i]/res[i]/dist[i]; "
+                 "that the schedule is supplied/quantile-of-stored-distances/list and continuation cannot raise it. Weight "
+                 "finiteness and np.quantile monotonicity are not decided.",
+        "note": _TB,
+    },
+    "C18": {
+        "technique": "static analysis: abstract execution of BaseLoss.fit up to the optimiser call with numpy packing "
+                     "semantics on token lists; inspection of the recorded minimize() arguments",
+        "level": "Decides only the repo-owned wiring: bounds row i = (lb[i], ub[i]) for box, one-sided and absent bounds; "
+                 "objective/gradient from the same object; start = caller's x; bounded method; mismatched lengths rejected. "
+                 "Feasibility and descent of L-BFGS-B/SLSQP are trusted, not decided.",
+        "note": _TB + "; scipy.optimize.minimize signature",
+    },
 }
 
 NOT_APPLICABLE = {}
